@@ -670,7 +670,7 @@ def run(model, rep, tier):
     check_base_operators(model, _Only(rep, {'R15.6': 'R14.6'}, keep=('submatrix-cache', 'precon-cache')))
     rep.rule('R14.11', 'every name loaded in solver.py resolves (symtable)')
     from rules import names as _names
-    _names.check(model, rep, 'R14.11', ('solver',), 100)
+    _names.check(model, rep, 'R14.11', ('solver',), 55)
     rep.require('R14.1', 8)
     rep.require('R14.2', 3)
     rep.require('R14.3', 10)
